@@ -104,7 +104,10 @@ def run(tier, seed):
                         pre += ' and f2 == 0 and v2 == 0'
                     if tier == 'quick':
                         # the package module matters for the requests that reach it; the others keep it absent
-                        pre += (' and vc <= 0 and f1 >= 2 and f2 >= 2' if req in (5, 6, 8) else ' and vd == -1 and f1 <= 2 and f2 <= 2')
+                        if req in (5, 6, 8):
+                            pre += ' and vc <= 0 and f1 >= 2' + (' and f2 >= 2' if nops == 2 else '')
+                        else:
+                            pre += ' and vd == -1 and f1 <= 2 and f2 <= 2'
                         pre += ' and warm == %d' % (req if nops == 1 else 0)
                         if nops == 2:
                             pre += ' and vc == 0'
